@@ -14,11 +14,11 @@ TRUSTED = _c01.TRUSTED
 ASSUMPTIONS = ['ValLaws: proved for the encoded-value model of the tie (see C01; C03_redo_encoded_values_partial)',
                'proved class (C03_redo_stage3_partial, computable side conditions bundle_ok3, see C01; contains the class '
                'bundle_ok2 of C03_redo_docs_calcs_partial): doc actions, calc deltas, renames after calc deltas, any lossless '
-               'doc action that keeps off the cells with a pending delta, the ModifyColumn / conversion delta / per-column flush triples of '
+               'doc action that keeps off the cells with a pending delta, removals of records / data columns / tables with '
+               'pending deltas, the ModifyColumn / conversion delta / per-column flush triples of '
                'doModifyColumn; the stored list is then the doc actions in order, the stored update of every per-column flush '
                'right after its ModifyColumn, and one update per recalculated column at the end',
-               'NOT proved: removals (and other writes) of cells with a pending delta, doModifyColumn on a column with a '
-               'pending delta, lossy doc actions; covered by the event-trace tie (same stored list as the engine, replayed by '
+               'NOT proved: writes to cells with a pending delta, lossy doc actions; covered by the event-trace tie (same stored list as the engine, replayed by '
                'the model to the same tables) and by the redo oracle on the implementation',
                'formula values after redo that are not written by a stored action rely on recalculation (C05)']
 TECHNIQUE = _c01.TECHNIQUE.replace('undo / whole-history undo oracles', 'undo-then-redo oracle')
@@ -27,8 +27,8 @@ LEVEL_TEXT = ('Kernel-checked for all documents and all bundles passing the comp
               'schema, row ids, cells up to encoding) to the one the bundle produced; replay of any action list is a congruence '
               'for document equivalence. Model compared with the running engine on recorded event traces; undo-then-redo '
               'oracle on the implementation on every run.')
-LEVEL_NOTE = ('kernel strength; of stage 3, renames and the per-column flushes of doModifyColumn are proved, and doc actions that keep '
-              'off the pending cells; removals of cells with a pending delta are _partial (trace refinement + oracle only).')
+LEVEL_NOTE = ('kernel strength; of stage 3, renames and the per-column flushes of doModifyColumn are proved, doc actions that keep '
+              'off the pending cells and removals of cells with a pending delta; writes to such cells and lossy actions are _partial (trace refinement + oracle only).')
 PROOF_TIMEOUT = 900
 
 
@@ -83,7 +83,7 @@ def search(ctx):
                       k['witness'])
   # fixed templates, always run: value-dependent (counter) trigger formulas read by a formula column whose id sorts
   # before / after them; edits and adds of the dependency, an explicit value for the trigger cell, a removed row
-  for kind, what, rep in K.counter_search(PROP, [], 4):
+  for kind, what, rep in K.template_search(PROP):
     ctx.count(('template', kind), nontrivial=True, kind='template')
     ctx.violation(kind, what, rep)
   res = getattr(ctx, '_k1', None) or K.traced_run(ctx, *_c01.sizes(ctx))
